@@ -19,6 +19,7 @@
        class   c = <<>>: runs the body of scope sc in a new frame now, then n := site s
        comp    runs scope sc (a comprehension; one decision: one trip or none) in a new frame now
        wbind   a walrus inside a comprehension: n := site s in the frame of the scope the comprehension is written in
+       wdef    the same with a lambda as the value: n := the function (site s) of scope sc, closed over the comprehension's frame
        call    read id s of name n, then - if the value is a function and the call budget allows - run its scope
                in a new frame whose parent is the frame the function was DEFINED in; parameters are bound to their sites
        return  leave the innermost call
@@ -60,7 +61,7 @@ RECURSIVE NonComp(_)
 NonComp(sc) == IF S(sc).kind = "comp" THEN NonComp(S(sc).parent) ELSE sc      \* the scope a comprehension is written in
 \* a walrus inside a comprehension (node kind wbind, owned by the comprehension) binds in the scope the comprehension is written in
 BoundIn(sc) == {N(i).n : i \in {j \in 1..NNodes : N(j).o = sc /\ N(j).k \in BindKinds}} \cup ParamNames(sc)
-               \cup (IF S(sc).kind = "comp" THEN {} ELSE {N(i).n : i \in {j \in 1..NNodes : N(j).k = "wbind" /\ NonComp(N(j).o) = sc}})
+               \cup (IF S(sc).kind = "comp" THEN {} ELSE {N(i).n : i \in {j \in 1..NNodes : N(j).k \in {"wbind", "wdef"} /\ NonComp(N(j).o) = sc}})
 DeclGlobal(sc, n) == n \in ToSet(S(sc).gl)
 DeclNonlocal(sc, n) == n \in ToSet(S(sc).nl)
 Local(sc, n) == n \in BoundIn(sc) /\ ~DeclGlobal(sc, n) /\ ~DeclNonlocal(sc, n)
@@ -175,6 +176,8 @@ Step ==
               ELSE k' = Pop /\ UNCHANGED <<heap, ncalls, dec, obs, crash>>
          [] nd.k = "wbind" ->
               /\ heap' = Bind(FrameNonComp(f.fr), nd.n, Val(nd.s, 0)) /\ k' = Pop /\ UNCHANGED <<ncalls, dec, obs, crash>>
+         [] nd.k = "wdef" ->         \* (n := lambda ..) inside a comprehension: the function is closed over the comprehension's frame
+              /\ heap' = Bind(FrameNonComp(f.fr), nd.n, Val(nd.s, f.fr)) /\ k' = Pop /\ UNCHANGED <<ncalls, dec, obs, crash>>
          [] nd.k = "call" ->
               LET v == Get(f.fr, nd.n) IN
               /\ obs' = Append(obs, <<nd.s, v.s>>)
